@@ -1,11 +1,10 @@
 package s0300
 
-type G1 struct {
-	F2x0 uint32
-}
 
 type T struct {
-	F0 *int32
+	F0 int32
 	F1 int64
-	F2 G1
+	F2 uint32
+	F3 uint64
+	F4 float32
 }
